@@ -153,7 +153,8 @@ fn check_resource_consumption(context: &CheckerContext) -> GenericResult<()> {
             GenericError::from(format!("cannot find resource '{resource_id}' in list of available resources"))
         })?;
 
-        if consumed > available {
+        // NOTE: partial order of loads is undefined when only some dimensions are exceeded
+        if !available.can_fit(&consumed) {
             Err(GenericError::from(format!(
                 "consumed more resource '{resource_id}' than available: {consumed} vs {available}"
             )))
